@@ -108,7 +108,13 @@ def render_ini(d, section, style):
     blocks = [lines, pf] + secs
     if style % 3 == 1:
         blocks = [lines] + secs + [pf]       # entry / section order must not matter
-    return "\n".join("\n".join(b) for b in blocks) + "\n"
+    text = "\n".join("\n".join(b) for b in blocks) + "\n"
+    if (style // 6) % 2 == 1:
+        # the custom form carries the bare name of a standard form (the manual's own examples call theirs 'buck' and 'morse'):
+        # 'buck 1 2 3' is the file's formula, 'as.buck 1 2 3' the library's
+        import re
+        text = re.sub(r"\bpf\b", "buck", text)
+    return text
 
 
 def extract(tab, section):
